@@ -188,6 +188,7 @@ type c16Spec struct {
 	Receivers int    // goroutines blocked in Receive / ReceiveEvent at fault time
 	Fault     string // "client-close" | "server-conn-close" | "server-close" | "ctx-cancel" | "peer-close" | "double-close"
 	Stress    bool   // a goroutine keeps calling Send while the fault happens
+	Explicit  bool   // requests carry caller-chosen stream ids outside 1..MaxInFlight (and a negative one) instead of managed ones
 	Schedule  map[string][]schedAct
 }
 
@@ -369,7 +370,14 @@ func c16Session(args []string, _ []byte) string {
 		},
 		func() bool { // k sends
 			for i := 0; i < spec.K; i++ {
-				r, err := cc.Send(frame.NewFrame(v, client.ManagedStreamId, &message.Query{Query: fmt.Sprintf("q%d", i)}))
+				id := int16(client.ManagedStreamId)
+				if spec.Explicit {
+					id = int16(100 + i) // MaxInFlight is 16
+					if v != primitive.ProtocolVersion2 {
+						id = []int16{2000, -7, 32767}[i%3]
+					}
+				}
+				r, err := cc.Send(frame.NewFrame(v, id, &message.Query{Query: fmt.Sprintf("q%d", i)}))
 				if err != nil {
 					fail = fmt.Sprintf("send %d: %v", i, err)
 					return false
@@ -678,6 +686,7 @@ func drawC16Spec(rt *rapid.T, scheduled bool) c16Spec {
 	v := rapid.SampledFrom(allVersions).Draw(rt, "version")
 	spec := c16Spec{Version: int(v), Peer: rapid.SampledFrom([]string{"lib", "raw"}).Draw(rt, "peer"), Step: rapid.IntRange(0, 4).Draw(rt, "step"),
 		K: rapid.IntRange(0, 3).Draw(rt, "k"), Receivers: rapid.IntRange(0, 3).Draw(rt, "receivers"), Stress: rapid.IntRange(0, 3).Draw(rt, "stress") == 0}
+	spec.Explicit = rapid.IntRange(0, 2).Draw(rt, "explicitIds") == 0
 	spec.Answered = rapid.IntRange(0, spec.K).Draw(rt, "answered")
 	spec.MultiPage = (v == primitive.ProtocolVersionDse1 || v == primitive.ProtocolVersionDse2) && rapid.Bool().Draw(rt, "multipage")
 	faults := []string{"client-close", "double-close", "server-conn-close", "server-close", "ctx-cancel", "peer-close"}
@@ -746,7 +755,7 @@ func TestC16FaultMatrix(t *testing.T) {
 					if idx%nsh != sh {
 						continue
 					}
-					spec := c16Spec{Version: v, Peer: peer, Step: step, K: 3, Answered: 1, MultiPage: v == 66, Receivers: 2, Fault: fault}
+					spec := c16Spec{Version: v, Peer: peer, Step: step, K: 3, Answered: 1, MultiPage: v == 66, Receivers: 2, Fault: fault, Explicit: (step+len(fault))%2 == 0}
 					sj, _ := json.Marshal(spec)
 					verdict := isolated("c16session", []string{string(sj)}, nil)
 					verdict = harnessTrouble(verdict)
